@@ -10,6 +10,8 @@
 (* cfg.idur[s]   : instance duration t_STATE                                             *)
 (* durations     : ticks (<= 0 means immediately) or NONEV / INFV / ABSENTV              *)
 (* cfg.init      : the initial state (initdef)                                           *)
+(* cfg.xbad[s]   : 1 = an on_exit event of s fails in a non-fatal way (unknown event     *)
+(*                 type at its destination): event() raises, nothing has changed         *)
 (*                                                                                       *)
 (* The first part is the *functional* definition used by the monitor (trace spec):       *)
 (* Handle() gives state and pending timer after one event() call.  The second part is    *)
@@ -64,6 +66,7 @@ Enter(cfg, s, d, now, inited, k) ==
 Handle(cfg, st, tm, ev, d, now, inited) ==
     IF ~IsGoto(ev) /\ ~Known(cfg, ev) THEN Res("unknown", st, tm)
     ELSE IF ~Accepted(cfg, ev, st, inited) THEN Res("false", st, tm)     \* nothing changes
+    ELSE IF inited /\ cfg.xbad[st] = 1 THEN Res("unknown", st, tm)      \* exit failed: still in st, timer kept
     ELSE Enter(cfg, Target(cfg, ev, st), d, now, inited, 0)            \* old timer cancelled
 
 (* the timer tm expires: its event is delivered without data; whatever happens, that    *)
@@ -99,6 +102,7 @@ IEnter(cfg, w, s, d, now, inited, k) ==
 IHandle(cfg, w, ev, d, now, inited) ==
     IF ~IsGoto(ev) /\ ~Known(cfg, ev) THEN World(w.st, w.hs, w.act, w.nid, "unknown")
     ELSE IF ~Accepted(cfg, ev, w.st, inited) THEN World(w.st, w.hs, w.act, w.nid, "false")
+    ELSE IF inited /\ cfg.xbad[w.st] = 1 THEN World(w.st, w.hs, w.act, w.nid, "unknown")
     ELSE IEnter(cfg, IF CancelOnExit THEN StopTimer(w) ELSE w, Target(cfg, ev, w.st), d, now, inited, 0)
 
 (* the loop runs handle h (removing it from its heap) *)
